@@ -28,13 +28,14 @@ NonNegKinds == {"sma", "wma", "swma", "trima", "ema", "dma", "tma", "rma", "wsma
 AllNonNeg(kinds) == \A i \in 1..Len(kinds) : kinds[i] \in NonNegKinds
 
 \* v: logged values (JSON), c: the candle (Fx record), kinds: the MA kinds of the configuration
-RangeOK(name, cfg, c, v, kinds) ==
+\* dry: how many bars in a row (this one included) had zero volume: a window of n bars holds volume iff dry < n
+RangeOK(name, cfg, c, v, kinds, dry) ==
     CASE name = "Aroon" -> In01(v[1]) /\ In01(v[2])
       [] name = "RelativeStrengthIndex" -> AllNonNeg(kinds) => In01(v[1])
-      [] name = "MoneyFlowIndex" -> In01(v[2])
+      [] name = "MoneyFlowIndex" -> dry < cfg.period => In01(v[2])
       [] name = "StochasticOscillator" -> AllNonNeg(kinds) => (In01(v[1]) /\ In01(v[2]))
       \* volume-normalised quantities are undefined (0/0) on zero total volume; relative changes need positive inputs
-      [] name = "ChaikinMoneyFlow" -> (RNum(v[1]) /\ c.v.s > 0) => In11(v[1])      \* (a bar with volume makes the total volume non-zero)
+      [] name = "ChaikinMoneyFlow" -> dry < cfg.size => In11(v[1])
       [] name = "ChandeMomentumOscillator" -> In11(v[1])
       [] name = "TrueStrengthIndex" -> In11(v[1])
       [] name = "SMIErgodicIndicator" -> In11(v[1])
